@@ -10,7 +10,7 @@ from checks.common import ROOT
 from harness import tlc
 
 BROKER = {"C01", "C05", "C12", "C14", "C15"}
-WORKER = {"C02", "C03", "C04", "C06", "C09", "C10", "C11"}
+WORKER = {"C02", "C03", "C04", "C06", "C09", "C10", "C11", "C13"}
 
 
 def dispatch(pid: str, tier: str, seed: int, replay=None) -> int:
